@@ -278,7 +278,7 @@ class BuiltinMixin:
         vty = self.dict_vty(d)
         if vty is None:
             vty = JV
-        return st.read(self._map_key(vty), z3.ArraySort(S, opt_sort(sort_of(vty))), d.t)
+        return st.read(self._map_key(vty), z3.ArraySort(S, opt_sort(sort_of(vty)).sort), d.t)
 
     def empty_map(self, vty):
         return z3.K(S, opt_sort(sort_of(vty)).none)
@@ -286,7 +286,7 @@ class BuiltinMixin:
     def new_dict(self, vty, st, m=None):
         ref = st.new_ref()
         v = vty if vty is not None else JV
-        st.write(self._map_key(v), z3.ArraySort(S, opt_sort(sort_of(v))), ref, m if m is not None else self.empty_map(v))
+        st.write(self._map_key(v), z3.ArraySort(S, opt_sort(sort_of(v)).sort), ref, m if m is not None else self.empty_map(v))
         self.log_write(self._map_key(v))
         return Val(DictT(v), ref)
 
@@ -363,7 +363,7 @@ class BuiltinMixin:
         k = self.as_key(key)
         os_ = opt_sort(sort_of(vty))
         m = self.dict_map(d, st)
-        st.write(self._map_key(vty), z3.ArraySort(S, os_), d.t, z3.Store(m, k, os_.some(self.to_dict_val(v, vty, st))))
+        st.write(self._map_key(vty), z3.ArraySort(S, os_.sort), d.t, z3.Store(m, k, os_.some(self.to_dict_val(v, vty, st))))
         self.log_write(self._map_key(vty))
 
     def dict_del(self, d, key, st, line=None):
@@ -372,13 +372,13 @@ class BuiltinMixin:
         os_ = opt_sort(sort_of(vty))
         m = self.dict_map(d, st)
         st.raise_if(os_.is_none(z3.Select(m, k)), "KeyError", line)
-        st.write(self._map_key(vty), z3.ArraySort(S, os_), d.t, z3.Store(m, k, os_.none))
+        st.write(self._map_key(vty), z3.ArraySort(S, os_.sort), d.t, z3.Store(m, k, os_.none))
         self.log_write(self._map_key(vty))
 
     def havoc_dict(self, v, st):
         vty = self.dict_vty(v) or JV
         os_ = opt_sort(sort_of(vty))
-        st.write(self._map_key(vty), z3.ArraySort(S, os_), v.t, fresh("hv_map", z3.ArraySort(S, os_)))
+        st.write(self._map_key(vty), z3.ArraySort(S, os_.sort), v.t, fresh("hv_map", z3.ArraySort(S, os_.sort)))
 
     def dict_copy(self, d, st):
         vty = self.dict_vty(d) or JV
@@ -801,7 +801,7 @@ class BuiltinMixin:
                 st.alloc = base2 + n
                 vty = fty.args[0] or JV
                 mkey = self._map_key(vty)
-                marr = st.field(mkey, z3.ArraySort(S, opt_sort(sort_of(vty))))
+                marr = st.field(mkey, z3.ArraySort(S, opt_sort(sort_of(vty)).sort))
                 in2 = z3.And(r >= base2, r < base2 + n)
                 srcd = z3.Select(arr, z3.Select(items, r - base2))
                 st.set_field_array(mkey, self.def_array(st, r, z3.If(in2, z3.Select(marr, srcd), z3.Select(marr, r))))
